@@ -29,7 +29,16 @@ def mk_doc(h, spec, counter):
             continue
         if k == 'H':
             t = tok(); r, l = lr()
-            neutral.append({'k': 'Header', 't': t, 'lv': 1, 'lr': l}); vals.append(h.header(1, [h.istr(t)], r))
+            lv = b[1] if len(b) > 1 else 1
+            neutral.append({'k': 'Header', 't': t, 'lv': lv, 'lr': l}); vals.append(h.header(lv, [h.istr(t)], r))
+        elif k == 'QH':
+            t = tok(); r, l = lr()
+            neutral.append({'k': 'Quote', 'lr': l, 'c': [{'k': 'Header', 't': t, 'lv': 1, 'lr': l}]})
+            vals.append(h.quote([h.header(1, [h.istr(t)], r)], r))
+        elif k == 'LH':
+            t = tok(); t2 = tok(); r, l = lr(); r2, l2 = lr()
+            neutral.append({'k': 'Bullet', 'items': [[{'k': 'Para', 't': t, 'lr': l}, {'k': 'Header', 't': t2, 'lv': 1, 'lr': l2}]]})
+            vals.append(h.bullets([[h.para([h.istr(t)], r), h.header(1, [h.istr(t2)], r2)]]))
         elif k == 'HL':
             t = tok(); r, l = lr()
             neutral.append({'k': 'Header', 't': t, 'lv': 1, 'lr': l, 'inl': [{'k': 'Str', 't': t + ' '}, {'k': 'Link', 'url': b[1], 'c': [{'k': 'Str', 't': 'x'}]}]})
@@ -540,7 +549,7 @@ def render_neutral(blocks, indent=''):
         if k == 'Meta':
             front = '---\n' + b['t'] + '---\n\n'
             continue
-        if k == 'Header': out.append('# ' + inl(b))
+        if k == 'Header': out.append('#' * b.get('lv', 1) + ' ' + inl(b))
         elif k == 'Para': out.append(inl(b))
         elif k == 'Ref': out.append('[%s](%s)' % (b['t'], b['url']))
         elif k == 'Table': out.append('| %sh |\n|---|\n| %sc |' % (b['t'], b['t']))
